@@ -161,6 +161,12 @@ def main():
                for i in range(Nm) for j in range(i + 1, Nm)}
 
         composite = (s % 4 == 2)
+        # baths handed over as sampled values (ftype "Value-defined"): the
+        # sites declare the same reorganisation energy and temperature but
+        # their functions differ (different correlation times)
+        valuedef = (s % 4 == 3)
+        if valuedef:
+            reorg[:] = reorg[0]
 
         def build_ag(nt, dt):
             tax = qr.TimeAxis(0.0, nt, dt)
@@ -186,8 +192,13 @@ def main():
                                    reorg=float(reorg[i]),
                                    cortime=float(cort[i]), T=Temp2,
                                    matsubara=100)
-                    m.set_transition_environment(
-                        (0, 1), qr.CorrelationFunction(tax, prm))
+                    cfx = qr.CorrelationFunction(tax, prm)
+                    if valuedef:
+                        cfx = qr.CorrelationFunction(
+                            tax, dict(ftype="Value-defined",
+                                      reorg=float(reorg[i]), T=Temp2),
+                            values=numpy.array(cfx.data, dtype=complex))
+                    m.set_transition_environment((0, 1), cfx)
                     mols.append(m)
                 agx = qr.Aggregate(mols)
                 for (i, j), v in Jcm.items():
@@ -204,7 +215,8 @@ def main():
         ham = ag.get_Hamiltonian()
         sbi = ag.get_SystemBathInteraction()
         rp = dict(kind="aggregate", seed=ck.seed, system=s, N=Nm, T=Temp2,
-                  composite_bath=bool(composite))
+                  composite_bath=bool(composite),
+                  value_defined_bath=bool(valuedef))
         with ck.guarded("redfield-rates", "aggregate", rp, rp):
             RRm = RedfieldRateMatrix(ham, sbi)
             K = numpy.array(RRm.data)
